@@ -243,6 +243,20 @@ def main(tier, replay=None):
     for o in t3:
         o['id'] = len(obs) + 1
         obs.append(o)
+    # texts with a long common beginning (as long as a cell can hold, and longer) order as their ends do
+    for n in (5, 255, 256, 32766, 32767, 32768, 40000):
+        pre = ''.join(rng.choice('xyZ 9') for _ in range(n))
+        for ta in ('', 'a', 'b', 'ab', 'B'):
+            for tb in ('', 'a', 'b', 'ab', 'B'):
+                tp.set_variable('vx', pre + ta)
+                tp.set_variable('vy', pre + tb)
+                r = {}
+                for name, f in (('lt', 'vx<vy'), ('eq', 'vx=vy'), ('gt', 'vx>vy')):
+                    q = tp.parse(f)
+                    r[name] = enc(q['result']) if q['error'] is None else {'t': 'err', 'c': q['error']}
+                obs.append({'id': len(obs) + 1, 'kind': 'longtext', 'in': {'op': 'longtext', 'a': '%d+%s' % (n, ta), 'b': '%d+%s' % (n, tb)},
+                            'ta': [ord(c) for c in ta], 'tb': [ord(c) for c in tb], 'r': r,
+                            'out': {'res': {'t': 'blank'}, 'err': ''}, 'mode': 'var', 'formula': 'vx<vy'})
     # a date against the serial the library itself gives for it: every day of January-March 1900 (where the serials carry the
     # spreadsheet's 29 February 1900), days spread over the calendar, and times of day that are exact binary fractions
     days = [_dt.datetime(1900, 1, 1) + _dt.timedelta(days=k) for k in range(0, 70)]
